@@ -57,6 +57,9 @@ def sources(tier):
         ("delayed", Src("X", n, LCOLS, 4, how="delayed", cuts=(0, 2, 2, 4, 5))),
         ("delayed-known", Src("X", n, LCOLS, 4, how="delayed", cuts=(0, 2, 3, 4, 5), divisions=(0, 10, 20, 30, 40))),
         ("graph", Src("X", n, LCOLS, 4, how="graph", cuts=(0, 1, 3, 4, 5))),
+        # real parquet datasets (one file per partition, written under .work/pq): fsspec and arrow readers, the latter also with fused reads
+        ("parquet", Src("X", n, LCOLS, 4, how="parquet", cuts=(0, 1, 3, 4, 5))),
+        ("parquet-arrow", Src("X", n, LCOLS, 4, how="parquet-arrow", cuts=(0, 2, 3, 4, 5))),
     ]
     return srcs
 
@@ -89,6 +92,8 @@ def _cfgs(tier):
                 continue
             if tier == "quick" and sname in ("pandas3", "graph") and tag not in ("source", "elemwise", "shuffle-staged", "broadcast-join"):
                 continue
+            if sname.startswith("parquet") and tag not in ("source", "elemwise", "projection-series", "broadcast-scalar", "chain", "to_frame", "shuffle", "broadcast-join", "head-all", "tail", "filter"):
+                continue
             k = src.npart if src.cuts is None else len(src.cuts) - 1
             if "npartitions=7" in text:
                 k = 7
@@ -112,6 +117,19 @@ def _cfgs(tier):
     return out
 
 
+def _io_fused(plan):
+    from dask_expr.io.io import FusedIO
+
+    def walk(e):
+        yield e
+        for sub in getattr(e, "exprs", None) or []:
+            yield from walk(sub)
+        for d in e.dependencies():
+            yield from walk(d)
+
+    return any(isinstance(e, FusedIO) for e in walk(plan))
+
+
 def _name(cfg):
     sname, src, text, tag, kind, arg = cfg
     return f"{text} @ {sname} | {kind}({arg})"
@@ -132,6 +150,8 @@ def check(cfg) -> list[Result]:
     prog = Program(text, srcs, ordered=True, family="F11", note=tag, env_globals={"dx": dx})
     env, frames = prun.make_env(prog)
     ordered = not any(t in tag for t in ("shuffle", "join"))
+
+    flatten_real = [False]
 
     def select(q):
         if kind == "partitions":
@@ -160,7 +180,10 @@ def check(cfg) -> list[Result]:
 
         try:
             q = prog.build({k_: v for k_, v in prun.make_collections(prog, fr, present).items()} | {"X": prun.make_collections(prog, fr, present)["X"]})
-            full = prun.concrete_parts(optimize(q.expr))
+            fp = optimize(q.expr)
+            if fp.npartitions != q.npartitions:
+                fp = q.expr.lower_completely()  # see below: IO fusion changed the partitioning
+            full = prun.concrete_parts(fp)
         except Exception as e:
             return None, f"unselected query fails: {type(e).__name__}: {e}"
         try:
@@ -184,6 +207,9 @@ def check(cfg) -> list[Result]:
             want = [full[-1].tail(arg) if not isinstance(full[-1], pd.Index) else full[-1][-arg:] if arg else full[-1][:0]]
         else:
             want = full
+        if flatten_real[0] and want and got:
+            cat = lambda ps: [pd.concat(ps)] if isinstance(ps[0], (pd.DataFrame, pd.Series)) else [ps[0].append(list(ps[1:]))] if isinstance(ps[0], pd.Index) else ps  # noqa: E731
+            want, got = cat(list(want)), cat(list(got))
         if len(want) != len(got):
             return True, f"{len(got)} partitions, expected {len(want)}"
         for i, (w, g) in enumerate(zip(want, got)):
@@ -195,6 +221,10 @@ def check(cfg) -> list[Result]:
     try:
         q = prog.build(prun.make_collections(prog, frames))
         full_plan = optimize(q.expr, fuse=True)
+        if full_plan.npartitions != q.npartitions:
+            # the tuning step fused several files of a parquet dataset into one task: "partition i of the collection" is the partition the
+            # collection reports (q.npartitions, q.divisions), so the expectation is taken from the plan without that step
+            full_plan = q.expr.lower_completely()
     except Exception as e:
         return [Result(name, SKIPPED, "", f"query does not build: {type(e).__name__}: {str(e)[:150]}")]
     if (kind == "partitions" and arg and max(arg) >= q.npartitions) or (kind == "head" and arg[1] > q.npartitions):
@@ -244,6 +274,24 @@ def check(cfg) -> list[Result]:
             exp_paths.append((pc, expected_parts(v)))
         except Unsupported as e:
             return [Result(name, SKIPPED, "", f"unsupported expectation: {e}", extra={"unsupported": str(e)})]
+    if (kind == "delayed" and src.how.startswith("parquet")) or (kind != "delayed" and _io_fused(sel_plan)):
+        if kind == "partitions" and len(set(arg)) != len(arg):
+            return [Result(name, SKIPPED, "", "repeated partitions under a multi-file fused read: the row-sequence comparison needs distinct rows", extra={"unsupported": "repeated partitions under fused IO"})]
+        # multi-file fused reads (FusedIO / FusedParquetIO, introduced by the tuning step) merge neighbouring partitions of the source by
+        # design, so the optimised plan has fewer partitions than the collection reports: the rows are compared in order, not the layout
+        def flat(paths):
+            out = []
+            for pc, v in paths:
+                if not isinstance(v, Exception) and len(v) > 1:
+                    v = Parts([sym_concat(list(v))])
+                out.append((pc, v))
+            return out
+
+        try:
+            exp_paths, sel_paths = flat(exp_paths), flat(sel_paths)
+        except Unsupported as e:
+            return [Result(name, SKIPPED, "", f"unsupported concatenation: {e}", extra={"unsupported": str(e)})]
+        flatten_real[0] = True
     saved = prun.replay_stage
     prog.ordered = ordered
     try:
